@@ -58,6 +58,8 @@ type fileCtx struct {
 	atomic  string
 	skip    map[ast.Node]bool // nodes whose generic edit is suppressed
 	selTemp int
+	runtimeName      string // local name of the "runtime" import
+	goschedRewritten bool
 }
 
 func (c *fileCtx) off(p token.Pos) int { return c.fset.Position(p).Offset }
@@ -228,6 +230,11 @@ func loadPkg(root, dir string) *pkgCtx {
 				local = imp.Name.Name
 			}
 			switch ip {
+			case "runtime":
+				fc.runtimeName = "runtime"
+				if imp.Name != nil {
+					fc.runtimeName = imp.Name.Name
+				}
 			case "sync":
 				fc.sync = local
 				usesSync = true
@@ -1048,6 +1055,10 @@ func (p *pkgCtx) rewriteFile(fc *fileCtx) {
 		p.resetFns = append([]string{fn}, p.resetFns...)
 		fc.edits = append(fc.edits, edit{len(fc.src), len(fc.src), "\n// " + fn + " re-executes the package-level var initialisers of this file (generated by vsim rewrite);\n// on later passes only those that depend on other package-level variables.\nfunc " + fn + "(pass int) {\n\tif pass > 0 {\n\t\t" + strings.Join(append(depResets, "return"), "\n\t\t") + "\n\t}\n\t" + strings.Join(resets, "\n\t") + "\n}\n", 9})
 	}
+	if fc.goschedRewritten {
+		// the runtime import may have no other use left
+		fc.edits = append(fc.edits, edit{len(fc.src), len(fc.src), "\nvar _ = " + fc.runtimeName + ".GOOS\n", 9})
+	}
 	// 6. extra imports right after the package clause
 	extra := ""
 	for _, k := range []string{"vchan", "vsched", "vrace"} {
@@ -1161,6 +1172,13 @@ func (p *pkgCtx) rewriteConcurrency(fc *fileCtx) {
 				inSelectComm[x.X] = true
 			}
 		case *ast.CallExpr:
+			if se, ok := x.Fun.(*ast.SelectorExpr); ok && se.Sel.Name == "Gosched" && len(x.Args) == 0 {
+				if id, ok := se.X.(*ast.Ident); ok && id.Obj == nil && id.Name == fc.runtimeName && fc.runtimeName != "" {
+					fc.need["vsched"] = true
+					fc.repl(se.Pos(), se.End(), "vsched.Gosched")
+					fc.goschedRewritten = true
+				}
+			}
 			if id, ok := x.Fun.(*ast.Ident); ok && id.Obj == nil {
 				if id.Name == "make" && len(x.Args) >= 1 {
 					if ct, ok := x.Args[0].(*ast.ChanType); ok {
